@@ -45,6 +45,8 @@ type writeTxn struct {
 
 var interfaceMapType = reflect.TypeOf(map[string]interface{}(nil))
 
+var errMissingID = errors.New("missing ID")
+
 // NewStore creates a new Store and initializes it.
 //
 // The type of typ will be used as value. If the type supports both the
@@ -190,12 +192,16 @@ func (wt writeTxn) Create(v interface{}) error {
 	if vv.Type() != t {
 		return fmt.Errorf("create value is of type %s, expected type %s", vv.Type().String(), t.String())
 	}
+	// The store does not generate IDs.
+	if wt.id == "" {
+		return errMissingID
+	}
 
 	err := wt.st.DB.Update(func(txn *badger.Txn) error {
 		// Validate that the resource doesn't exist
 		_, err := txn.Get(wt.rname)
 		if err == nil {
-			return fmt.Errorf("cannot create because value for %s already exists", wt.id)
+			return store.ErrDuplicate
 		}
 		if err != badger.ErrKeyNotFound {
 			return err
@@ -396,7 +402,8 @@ func (st *Store) Init(cb func(add func(id string, v interface{})) error) error {
 func (st *Store) getValue(txn *badger.Txn, key []byte) (interface{}, error) {
 	item, err := txn.Get(key)
 	if err != nil {
-		if err == badger.ErrKeyNotFound {
+		// An empty key (empty ID and no prefix) can never hold a value.
+		if err == badger.ErrKeyNotFound || err == badger.ErrEmptyKey {
 			return nil, res.ErrNotFound
 		}
 		return nil, err
